@@ -49,6 +49,18 @@ INVARIANT InvDefining
 INVARIANT InvInputOK
 """
 
+UNIQUE_CFG = """CONSTANT P = 3
+CONSTANT Dims = {dims}
+CONSTANT MaxLevel = {levels}
+INIT Init
+NEXT Next
+INVARIANT InvSymmetric
+INVARIANT InvUniqueIffWellPosed
+INVARIANT InvIllPosedWitness
+INVARIANT InvGaugeNeeded
+CHECK_DEADLOCK FALSE
+"""
+
 VTYPES = ["sympy", "sympy", "numpy", "numpy_complex", "sparse", "sympy"]
 
 
@@ -168,6 +180,23 @@ def run(pid, tier, seed, replay=None):
         mode_a = dict(spec="MC_LeastAction", constants=pl["mc"], distinct_states=res_a.distinct,
                       states_generated=res_a.generated, wall_s=round(res_a.wall, 1),
                       invariants=["InvDefining", "InvInputOK"], exhaustive=True)
+        if pid == "C03":
+            # uniqueness: over GF(3^2), every structure and EVERY candidate matrix -- the homogeneous
+            # defining equations have only the zero solution iff the structure is well posed
+            uniq = []
+            for dims, levels in ([("{2}", 2)] if tier == "quick" else [("{2}", 2), ("{3}", 1)]):
+                r = common.run_tlc("MC_Unique", UNIQUE_CFG.format(dims=dims, levels=levels), timeout=6000)
+                if "Model checking completed. No error has been found." not in r.out:
+                    raise MachineryError("MC_Unique did not complete cleanly:\n" + r.out[-3000:])
+                stats["states"] += r.distinct
+                stats["transitions"] += r.generated
+                uniq.append(dict(spec="MC_Unique", field="GF(3^2)", dims=dims, max_level=levels,
+                                 structures=r.distinct // 2, wall_s=round(r.wall, 1),
+                                 candidates_per_structure="all 6561 2x2 matrices" if dims == "{2}"
+                                 else "all 19683 anti-Hermitian 3x3 matrices",
+                                 invariants=["InvUniqueIffWellPosed", "InvIllPosedWitness", "InvGaugeNeeded"],
+                                 exhaustive=True))
+            mode_a["uniqueness"] = uniq
 
     # ---- Mode C -----------------------------------------------------------
     for p in pl["primes"]:
